@@ -61,10 +61,15 @@ type FuncContract struct {
 	Trusted    bool // contract assumed, body not verified (listed as assumption)
 	NoSafety   bool
 	NoOverflow bool
+	Counts     bool      // every call of this interface method is counted per receiver (ghost calls(recv, "Name"))
+	Stream     bool      // every call hands out the next element of the receiver's stream (ghost streamPos(recv))
 	Tallies    string    // `tallies KEY by AMOUNT`: every call adds AMOUNT to the ghost counter of KEY
 	Cas        []*Clause // allowed transitions of the package's atomic cell at every compare-and-swap of this function
+	QInst      bool // bounded quantifiers get instances at the range indices; forall goals are proved at a fresh constant
+	IndexFn    bool // element positions are ix(off, i) instead of off + i (robust quantifier patterns)
 	Lean       bool // obligations checked where a path ends (return, cut back edge) are not assumed afterwards
 	Uses       []string
+	Dispatch   []string // interface methods resolved by dynamic type at call sites (see dispatch.go)
 	Reveals    []string // opaque spec functions whose definition this function's proof may use
 	Hints      []*Clause // function-level `hint E`: instances of spec-function definitions, assumed at entry
 	Timeout    int
@@ -114,7 +119,7 @@ type PkgContracts struct {
 	Raw     string
 }
 
-var kwRe = regexp.MustCompile(`^(import|func|property|requires|names|ensures|modifies|loop|may_panic|trusted|nosafety|timeout|spec|lemma|axiom|panics|table|nooverflow|lean|cas|tallies|atomiccell|monitor|closed|purefield|hint|uses|reveals)\b`)
+var kwRe = regexp.MustCompile(`^(import|func|property|requires|names|ensures|modifies|loop|may_panic|trusted|nosafety|timeout|spec|lemma|axiom|panics|table|nooverflow|lean|indexfn|qinst|cas|tallies|counts|stream|dispatch|atomiccell|monitor|closed|purefield|hint|uses|reveals)\b`)
 
 func parseContractFile(path string) (*PkgContracts, error) {
 	f, err := os.Open(path)
@@ -214,6 +219,16 @@ func parseContractFile(path string) (*PkgContracts, error) {
 			}
 			pc.AtomicCells = append(pc.AtomicCells, ac)
 			cur, curLemma, curTable = nil, nil, nil
+			last = nil
+		case "counts":
+			if cur != nil {
+				cur.Counts = true
+			}
+			last = nil
+		case "stream":
+			if cur != nil {
+				cur.Stream = true
+			}
 			last = nil
 		case "tallies":
 			if cur == nil {
@@ -377,6 +392,12 @@ func parseContractFile(path string) (*PkgContracts, error) {
 			}
 			cur.Reveals = append(cur.Reveals, strings.Fields(strings.ReplaceAll(rest, ",", " "))...)
 			last = nil
+		case "dispatch":
+			if cur == nil {
+				return nil, fmt.Errorf("%s:%d: dispatch outside func", path, ln)
+			}
+			cur.Dispatch = append(cur.Dispatch, strings.Fields(strings.ReplaceAll(rest, ",", " "))...)
+			last = nil
 		case "uses":
 			// uses lemmaName ...: the (separately proved) lemmas are available as quantified facts
 			if cur == nil {
@@ -401,6 +422,12 @@ func parseContractFile(path string) (*PkgContracts, error) {
 			last = nil
 		case "lean":
 			cur.Lean = true
+			last = nil
+		case "indexfn":
+			cur.IndexFn = true
+			last = nil
+		case "qinst":
+			cur.QInst = true
 			last = nil
 		case "trusted":
 			cur.Trusted = true
